@@ -1,3 +1,40 @@
-From TM Require Import Base Frame.
-Theorem C16_placeholder : fc_value (fc_new 1) = 1.
-Proof. reflexivity. Qed.
+(* C16 -- abandoned and timed-out calls leave a usable, uncorrupted client.
+   A call run with budget [Some k] is dropped at its (k+1)-th Pending poll (CRAbandoned); a call whose
+   scripts run dry is left pending (CRWait) -- the state it leaves is what dropping the future leaves. *)
+From TM Require Import Base Frame Pdu RtuCodec Framed Client Sync FramedProofs FramedMore ClientProofs Histories.
+
+(* over the client's lifetime -- any history of completed, failed and abandoned calls -- the bytes that
+   reached the transport followed by the bytes still buffered are a concatenation of whole request
+   frames *)
+Theorem C16_whole_frames : forall p m ops st, whole_frames p (sent_and_buffered st) ->
+  whole_frames p (sent_and_buffered (run_ops p m st ops)).
+Proof. exact history_whole_frames. Qed.
+
+(* a later call that gets as far as a reply has flushed everything: the transport then holds whole frames *)
+Theorem C16_next_call_flushes : forall p m st req bg i,
+  call_reply p m st req bg = Some i -> wbuf (wio_ (snd (call p m st req bg))) = []
+  /\ exists fr, client_enc p m (req_hdr p st) req = Val fr
+                /\ accepted (wio_ (snd (call p m st req bg))) = accepted (wio_ st) ++ wbuf (wio_ st) ++ fr.
+Proof. exact call_completed_flushes. Qed.
+
+(* the call after an abandoned one performs a normal exchange (C12_exchange applies: abandonment
+   never latches an error) *)
+Theorem C16_abandonment_keeps_clean : forall p m st req bg, clean st -> clean (snd (call p m st req bg)).
+Proof. exact call_preserves_clean. Qed.
+
+(* over TCP a late reply to an abandoned request carries an older transaction id (C10) and is
+   therefore reported as a header mismatch, never as success *)
+Theorem C16_late_reply_is_mismatch : forall m st req bg rh rr,
+  call_reply TCP m st req bg = Some (rh, rr) -> fst rh <> next_tid st ->
+  fst (call TCP m st req bg) = CRHeaderMismatch rr.
+Proof.
+  intros m st req bg rh rr Hr Hne. apply (call_header_mismatch TCP m st req bg rh rr Hr).
+  intros ->. apply Hne. reflexivity.
+Qed.
+
+(* the synchronous wrapper: a call still pending when the timer fires returns TimedOut, one that
+   completes first returns its own result *)
+Theorem C16_timeout_wrapper : forall r,
+  with_timeout true r = match r with CRWait | CRAbandoned => CRTransport KTimedOut | _ => r end
+  /\ with_timeout false r = r.
+Proof. intros r. destruct r; split; reflexivity. Qed.
